@@ -517,15 +517,17 @@ class Core(composites.Composite):
 
         # validate the destination before attaching the assembly, so that a refused add leaves
         # the core unchanged
-        if spatialLocator is not None and spatialLocator in self.childrenByLocator:
-            raise ValueError(
-                "Cannot add {} because location {} is already filled by {}."
-                "".format(aName, spatialLocator, self.childrenByLocator[spatialLocator])
-            )
-
         if spatialLocator is not None:
-            # transfer spatialLocator to Core one
+            # transfer spatialLocator to Core one (a locator from another grid, or the detached
+            # locator of an assembly that was removed earlier, never equals a key of the table)
             spatialLocator = self.spatialGrid[tuple(spatialLocator.indices)]
+            if spatialLocator in self.childrenByLocator:
+                raise ValueError(
+                    "Cannot add {} because location {} is already filled by {}."
+                    "".format(
+                        aName, spatialLocator, self.childrenByLocator[spatialLocator]
+                    )
+                )
             if not self.spatialGrid.locatorInDomain(
                 spatialLocator, symmetryOverlap=True
             ):
